@@ -362,4 +362,129 @@ example : Gen.C06.y_lower_bound 106 (-98/100) (-1) 1 = -1 ∧ Gen.C06.y_upper_bo
     Gen.C06.z_lower_bound 80 (9/10) (1/10) (1/2) (3/2) = 1 ∧ Gen.C06.z_upper_bound 80 (9/10) (1/10) (1/2) (3/2) = 9/7 := by
   decide +kernel
 
+
+/-! ### the clip stage of `compute_bootstrap_errors`, as written in the source (regenerated: `Gen.C06.clip_*`)
+
+The six arrays the model keeps after the bootstrap — `errors_B_1 … errors_B_4`, `weighted_yz_test_pred`, `weighted_z_test_pred` — are,
+per unit and draw, the functions `Gen.C06.clip_*` of the raw draws, the unit's clip bounds and its weight.  `yPre` is *whatever* the
+statements before the last clip of the margin draws computed (OLS prediction, contest effect, extrapolation from the version history,
+presidential correction): the theorems hold for every value of it.  Together with `source_y_bounds` / `source_z_bounds` this removes
+the "clip invariant" from the assumptions about the bootstrap oracle: it is a theorem about the source text. -/
+
+/-- numpy's two-sided clip with ordered bounds lands between them -/
+theorem clip_mem (x lo hi : ℚ) (h : lo ≤ hi) : lo ≤ rmin (rmax x lo) hi ∧ rmin (rmax x lo) hi ≤ hi := by
+  unfold rmin rmax
+  split_ifs <;> constructor <;> linarith
+
+/-- mean of a list of draws -/
+def meanR (l : List ℚ) : ℚ := sumR l / (l.length : ℚ)
+
+theorem sumR_bounds (l : List ℚ) (a b : ℚ) (h : ∀ x ∈ l, a ≤ x ∧ x ≤ b) :
+    a * (l.length : ℚ) ≤ sumR l ∧ sumR l ≤ b * (l.length : ℚ) := by
+  induction l with
+  | nil => simp [sumR]
+  | cons x xs ih =>
+    have hx := h x (by simp)
+    have ht := ih (fun y hy => h y (by simp [hy]))
+    simp only [sumR, List.length_cons, Nat.cast_add, Nat.cast_one]
+    constructor <;> nlinarith [hx.1, hx.2, ht.1, ht.2]
+
+/-- the mean of draws that all lie in `[a, b]` lies in `[a, b]` -/
+theorem mean_mem (l : List ℚ) (hne : l ≠ []) (a b : ℚ) (h : ∀ x ∈ l, a ≤ x ∧ x ≤ b) :
+    a ≤ meanR l ∧ meanR l ≤ b := by
+  have hpos : (0 : ℚ) < (l.length : ℚ) := by
+    have : 0 < l.length := List.length_pos_iff.mpr hne
+    exact_mod_cast this
+  have hs := sumR_bounds l a b h
+  unfold meanR
+  constructor
+  · rw [le_div_iff₀ hpos]; exact hs.1
+  · rw [div_le_iff₀ hpos]; exact hs.2
+
+/-- **every stored draw respects the unit's feasible range**: for clip bounds `-1 ≤ yl ≤ yu ≤ 1`, `0 ≤ zl ≤ zu` and a non-negative
+    weight, the turnout draws `errors_B_3`, `errors_B_4` are non-negative and the margin draws `errors_B_1`, `errors_B_2` are within
+    `± turnout draw` — for every raw draw, every mean and every sampled residual -/
+theorem source_clip_draws (yPre zRaw yBar zBar ry rz yl yu zl zu w : ℚ)
+    (hy : yl ≤ yu) (hyl : -1 ≤ yl) (hyu : yu ≤ 1) (hzl : 0 ≤ zl) (hz : zl ≤ zu) (hw : 0 ≤ w) :
+    0 ≤ Gen.C06.clip_errors_B_3 zRaw yl yu zl zu w ∧
+    |Gen.C06.clip_errors_B_1 yPre zRaw yl yu zl zu w| ≤ Gen.C06.clip_errors_B_3 zRaw yl yu zl zu w ∧
+    0 ≤ Gen.C06.clip_errors_B_4 zBar rz yl yu zl zu w ∧
+    |Gen.C06.clip_errors_B_2 yBar zBar ry rz yl yu zl zu w| ≤ Gen.C06.clip_errors_B_4 zBar rz yl yu zl zu w := by
+  unfold Gen.C06.clip_errors_B_1 Gen.C06.clip_errors_B_2 Gen.C06.clip_errors_B_3 Gen.C06.clip_errors_B_4
+  have y1 := clip_mem yPre yl yu hy
+  have z1 := clip_mem zRaw zl zu hz
+  have y2 := clip_mem (yBar + ry) yl yu hy
+  have z2 := clip_mem (zBar + rz) zl zu hz
+  set a := rmin (rmax yPre yl) yu
+  set b := rmin (rmax zRaw zl) zu
+  set c := rmin (rmax (yBar + ry) yl) yu
+  set d := rmin (rmax (zBar + rz) zl) zu
+  have hb : 0 ≤ b := le_trans hzl z1.1
+  have hd : 0 ≤ d := le_trans hzl z2.1
+  have hbw : 0 ≤ b * w := mul_nonneg hb hw
+  have hdw : 0 ≤ d * w := mul_nonneg hd hw
+  refine ⟨hbw, ?_, hdw, ?_⟩
+  · rw [abs_le]; constructor <;> nlinarith [y1.1, y1.2]
+  · rw [abs_le]; constructor <;> nlinarith [y2.1, y2.2]
+
+/-- **the unit point prediction respects the feasible range too**: the prediction is built from the means over the draws of the
+    clipped margin and turnout-factor draws (any positive number of draws, any raw values) -/
+theorem source_clip_point (yPres zRaws : List ℚ) (hy0 : yPres ≠ []) (hz0 : zRaws ≠ []) (yl yu zl zu w : ℚ)
+    (hy : yl ≤ yu) (hyl : -1 ≤ yl) (hyu : yu ≤ 1) (hzl : 0 ≤ zl) (hz : zl ≤ zu) (hw : 0 ≤ w) :
+    let yBar := meanR (yPres.map (fun y => Gen.C06.clip_y_draw y yl yu))
+    let zBar := meanR (zRaws.map (fun z => Gen.C06.clip_z_draw z zl zu))
+    0 ≤ Gen.C06.clip_weighted_z_test_pred zBar yl yu zl zu w ∧
+    |Gen.C06.clip_weighted_yz_test_pred yBar zBar yl yu zl zu w| ≤ Gen.C06.clip_weighted_z_test_pred zBar yl yu zl zu w ∧
+    yl ≤ yBar ∧ yBar ≤ yu ∧ zl ≤ zBar ∧ zBar ≤ zu := by
+  intro yBar zBar
+  have hyb : yl ≤ yBar ∧ yBar ≤ yu := by
+    apply mean_mem _ (by simpa using hy0)
+    intro x hx
+    obtain ⟨y, _, rfl⟩ := List.mem_map.mp hx
+    exact clip_mem y yl yu hy
+  have hzb : zl ≤ zBar ∧ zBar ≤ zu := by
+    apply mean_mem _ (by simpa using hz0)
+    intro x hx
+    obtain ⟨z, _, rfl⟩ := List.mem_map.mp hx
+    exact clip_mem z zl zu hz
+  unfold Gen.C06.clip_weighted_z_test_pred Gen.C06.clip_weighted_yz_test_pred
+  have hzb0 : 0 ≤ zBar := le_trans hzl hzb.1
+  have hzw : 0 ≤ zBar * w := mul_nonneg hzb0 hw
+  refine ⟨hzw, ?_, hyb.1, hyb.2, hzb.1, hzb.2⟩
+  rw [abs_le]; constructor <;> nlinarith [hyb.1, hyb.2]
+
+/-- **end to end, from the provider's figures to the stored draws**: with the clip bounds computed by `_generate_nonreporting_bounds`
+    (regenerated) from the unit's expected-vote percentage `pev`, its partial normalised margin `obsY ∈ [lbY, ubY] ⊆ [-1, 1]`, its partial
+    turnout factor `obsZ ≥ 0`, the provider error bound `eb ≥ 0` and naive bounds `0 ≤ lbZ ≤ ubZ`, every stored draw of the unit has a
+    non-negative turnout and a margin within `± turnout` — the hypotheses of `margin_bounded` for the group sums -/
+theorem source_draws_feasible (pev obsY lbY ubY obsZ eb lbZ ubZ yPre zRaw yBar zBar ry rz w : ℚ)
+    (h1 : lbY ≤ obsY) (h2 : obsY ≤ ubY) (hl : -1 ≤ lbY) (hu : ubY ≤ 1)
+    (ho : 0 ≤ obsZ) (he : 0 ≤ eb) (hzl : 0 ≤ lbZ) (hzu : lbZ ≤ ubZ) (hw : 0 ≤ w) :
+    let yl := Gen.C06.y_lower_bound pev obsY lbY ubY
+    let yu := Gen.C06.y_upper_bound pev obsY lbY ubY
+    let zl := Gen.C06.z_lower_bound pev obsZ eb lbZ ubZ
+    let zu := Gen.C06.z_upper_bound pev obsZ eb lbZ ubZ
+    0 ≤ Gen.C06.clip_errors_B_3 zRaw yl yu zl zu w ∧
+    |Gen.C06.clip_errors_B_1 yPre zRaw yl yu zl zu w| ≤ Gen.C06.clip_errors_B_3 zRaw yl yu zl zu w ∧
+    0 ≤ Gen.C06.clip_errors_B_4 zBar rz yl yu zl zu w ∧
+    |Gen.C06.clip_errors_B_2 yBar zBar ry rz yl yu zl zu w| ≤ Gen.C06.clip_errors_B_4 zBar rz yl yu zl zu w := by
+  intro yl yu zl zu
+  obtain ⟨a1, a2, a3, a4⟩ := source_y_bounds pev obsY lbY ubY h1 h2
+  obtain ⟨b1, b2⟩ := source_z_bounds pev obsZ eb lbZ ubZ ho he hzl hzu
+  exact source_clip_draws yPre zRaw yBar zBar ry rz yl yu zl zu w (by linarith) (by linarith) (by linarith) b1 b2 hw
+
+/-- where the clip stage takes its bounds and weights from (shape anchor) -/
+theorem bridge_clip_bounds_from :
+    Gen.C06.clip_bounds_from =
+      ["self._generate_nonreporting_bounds(nonreporting_units, 'results_normalized_margin')",
+       "self._generate_nonreporting_bounds(nonreporting_units, 'turnout_factor')",
+       "nonreporting_units['baseline_weights'].values.reshape(-1, 1)"] := rfl
+
+/-- non-vacuity: a unit at 80 % with a lopsided partial margin, a raw draw beyond the feasible range and a negative raw turnout draw -/
+example :
+    Gen.C06.clip_errors_B_1 (3/2) (-1) (1/5) (3/5) 1 (9/7) 100 = 60 ∧ Gen.C06.clip_errors_B_3 (-1) (1/5) (3/5) 1 (9/7) 100 = 100 ∧
+    Gen.C06.clip_errors_B_2 (1/2) 1 (-2) 5 (1/5) (3/5) 1 (9/7) 100 = 180/7 ∧ Gen.C06.clip_errors_B_4 1 5 (1/5) (3/5) 1 (9/7) 100 = 900/7 ∧
+    meanR [1/5, 3/5, 3/5] = 7/15 := by
+  decide +kernel
+
 end ElexModel.Boot
